@@ -65,7 +65,7 @@ FIXED = ["rootmount", "filter-absent-attribute", "filter-title", "filter-valuele
 
 def plan(tier, seed):
     n = 16
-    per = {"quick": 450, "thorough": 13500}[tier]
+    per = {"quick": 450, "thorough": 16000}[tier]
     return [{"name": "c17-%d" % i, "seed": seed * 1000 + i, "n": per, "index": i, "of": n, "tier": tier} for i in range(n)]
 
 
@@ -967,15 +967,18 @@ def run_shard(shard, rep, only=None):
     vloop.install_time()
     import aiocoap  # noqa: F401  (after install_time)
 
-    loop = vloop.new_loop()
-    try:
-        todo = []
-        if shard["index"] == 0 or only is not None:
-            todo += [["fixed", n] for n in FIXED]
-        todo += [["scn", k] for k in range(shard["n"])]
-        for case in todo:
-            if only is not None and only != case:
-                continue
+    todo = []
+    if shard["index"] == 0 or only is not None:
+        todo += [["fixed", n] for n in FIXED]
+    todo += [["scn", k] for k in range(shard["n"])]
+    for case in todo:
+        if only is not None and only != case:
+            continue
+        # one loop per history: the 247 s exchange-lifetime timers of a finished history would otherwise
+        # pile up in the loop (virtual time advances only milliseconds per request) and keep every
+        # context alive
+        loop = vloop.new_loop()
+        try:
             if case[0] == "fixed":
                 scn = Scenario(rep, loop, random.Random(17), case)
                 coro = scn.run_fixed(case[1])
@@ -998,6 +1001,5 @@ def run_shard(shard, rep, only=None):
                 rep.sample({"class": "history", "first_operations": scn.ops[:8], "final_tree": dump_tree(scn.sites[0])})
             if loop.exceptions:
                 rep.count("loop_exceptions", len(loop.exceptions))
-                del loop.exceptions[:]
-    finally:
-        vloop.close_loop(loop)
+        finally:
+            vloop.close_loop(loop)
